@@ -522,3 +522,179 @@ Proof.
   - destruct (spawned s) as [|[a1 d] sp] eqn:Esp; [discriminate|]. inversion Ha; subst a1.
     destruct (Hc _ _ _ H) as [H1 H2]. split; [exact H1|]. rewrite H2. symmetry. apply proj_cons_neq; auto.
 Qed.
+
+(* ---------------------------------------------------------------- who has the CPU: second invariant *)
+Definition gen_ctl (c : client) : bool := match pc c with PGen0 _ | PGen => true | _ => false end.
+
+(* on the CPU: the generator has control and is not suspended; off the CPU: suspended in user code iff it has control *)
+Definition cpu_inv (s : state) : Prop :=
+  (forall a, cur s = Some a -> gen_ctl (cl s a) = true /\ gsusp (cl s a) = false) /\
+  (forall a, cur s <> Some a -> gsusp (cl s a) = gen_ctl (cl s a)).
+
+Definition cpost (c' : client) (cpu : bool) : Prop :=
+  if cpu then gen_ctl c' = true /\ gsusp c' = false else gsusp c' = gen_ctl c'.
+
+(* scheduler-side operations start from an off-CPU client, generator-side ones from the client on the CPU *)
+Definition local_off (f : client -> lres) : Prop :=
+  forall c c' o cpu, cinv c -> gsusp c = gen_ctl c -> f c = Ok c' o cpu -> cpost c' cpu.
+Definition local_on (f : client -> lres) : Prop :=
+  forall c c' o cpu, cinv c -> gen_ctl c = true -> gsusp c = false -> f c = Ok c' o cpu -> cpost c' cpu.
+
+Ltac cpu_brute c :=
+  cbreak c; unfold cinv, cpost, gen_ctl in *; simpl in *;
+  repeat match goal with
+         | H : context [match ?x with _ => _ end] |- _ => is_var x; destruct x; simpl in *; try discriminate
+         end;
+  crush; simpl in *; subst; simpl in *; try discriminate; try congruence; auto.
+
+Lemma client_coroutine_off a : forall c c' o cpu,
+  pc c = PIdle -> gsusp c = false -> client_coroutine a c = Ok c' o cpu -> cpost c' cpu.
+Proof.
+  intros c c' o cpu Hpc Hg H. cbreak c. unfold client_coroutine, cpost, gen_ctl in *. simpl in *. subst.
+  destruct st_; try discriminate. destruct q_; simpl in H; crush. simpl. auto.
+Qed.
+
+Lemma handler_check_off a : local_off (handler_check a).
+Proof.
+  intros c c' o cpu Hc Hg H. unfold handler_check in H.
+  destruct (st c) eqn:Es; [destruct (queue c) eqn:Eq|destruct (queue c)|destruct (queue c)];
+    try (crush; unfold cpost; assumption).
+  unfold cinv in Hc. rewrite Es in Hc. destruct Hc as (_ & Hpc & _).
+  eapply client_coroutine_off; [| |exact H]; simpl; auto.
+  unfold gen_ctl in Hg. rewrite Hpc in Hg. exact Hg.
+Qed.
+
+Lemma l_hstart_off a d susp : local_off (l_hstart a d susp).
+Proof.
+  intros c c' o cpu Hc Hg H. unfold l_hstart in H.
+  assert (HK : forall c1, pc c1 = pc c -> gsusp c1 = gsusp c -> st c1 = st c ->
+                (st c = TNone -> queue c1 <> [] -> True) ->
+                handler_check a c1 = Ok c' o cpu -> cpost c' cpu).
+  { intros c1 E1 E2 E3 _ Hh. unfold handler_check in Hh. rewrite E3 in Hh.
+    destruct (st c) eqn:Es; [destruct (queue c1) eqn:Eq|destruct (queue c1)|destruct (queue c1)];
+      try (crush; unfold cpost, gen_ctl in *; rewrite E1, E2; assumption).
+    unfold cinv in Hc. rewrite Es in Hc. destruct Hc as (_ & Hpc & _).
+    eapply client_coroutine_off; [| |exact Hh]; simpl; try congruence.
+    rewrite E2. unfold gen_ctl in Hg. rewrite Hpc in Hg. exact Hg. }
+  destruct (st c) eqn:Es.
+  - eapply HK; [| | | |exact H]; simpl; auto.
+  - destruct susp.
+    + crush. unfold cpost, gen_ctl in *. simpl. assumption.
+    + eapply HK; [| | | |exact H]; simpl; auto.
+  - destruct susp.
+    + crush. unfold cpost, gen_ctl in *. simpl. assumption.
+    + eapply HK; [| | | |exact H]; simpl; auto.
+Qed.
+
+Lemma l_hresume_off a : local_off (l_hresume a).
+Proof.
+  intros c c' o cpu Hc Hg H. unfold l_hresume in H. destruct (hsusp c) eqn:Eh; [discriminate|].
+  eapply (handler_check_off a (set_hsusp c n)); [| |exact H]; auto.
+Qed.
+
+Lemma l_taskstart_off a : local_off (l_taskstart a).
+Proof.
+  intros c c' o cpu Hc Hg H. unfold l_taskstart in H. destruct (st c) eqn:Es; try discriminate.
+  unfold cinv in Hc. rewrite Es in Hc. destruct Hc as (_ & Hpc & _).
+  eapply client_coroutine_off; [| |exact H]; auto.
+  unfold gen_ctl in Hg. rewrite Hpc in Hg. exact Hg.
+Qed.
+
+Lemma l_gresume_off : local_off l_gresume.
+Proof. intros c c' o cpu Hc Hg H. unfold l_gresume in H. cpu_brute c. Qed.
+
+Lemma l_popwake_off a : local_off (l_popwake a).
+Proof. intros c c' o cpu Hc Hg H. unfold l_popwake in H. cpu_brute c. Qed.
+
+Lemma l_timeout_off a : local_off (l_timeout a).
+Proof. intros c c' o cpu Hc Hg H. unfold l_timeout in H. cpu_brute c. Qed.
+
+Lemma l_gsuspend_on : local_on l_gsuspend.
+Proof. intros c c' o cpu Hc H1 H2 H. unfold l_gsuspend in H. cpu_brute c. Qed.
+
+Lemma l_gyield_on a t : local_on (l_gyield a t).
+Proof. intros c c' o cpu Hc H1 H2 H. unfold l_gyield in H. cpu_brute c. Qed.
+
+Lemma l_gfinish_on : local_on l_gfinish.
+Proof.
+  intros c c' o cpu Hc H1 H2 H. unfold l_gfinish, finish in H. cbreak c. unfold cpost, gen_ctl in *. simpl in *.
+  destruct pc_; try discriminate; destruct st_; try discriminate; simpl in H; destruct q_; crush; simpl; auto.
+Qed.
+
+Lemma cpu_inv0 : cpu_inv state0.
+Proof. split; intros a H; [discriminate|reflexivity]. Qed.
+
+Lemma commit_cpu s sp a pre r s' o :
+  cpu_inv s -> (cur s = None \/ cur s = Some a) -> r <> CrashR ->
+  (forall c' o' cpu, r = Ok c' o' cpu -> cpost c' cpu) ->
+  commit s sp a pre r = Some (s', o) -> cpu_inv s'.
+Proof.
+  intros [H1 H2] Hcur Hnc Hpost H. unfold commit in H. destruct r as [| |c' o' cpu]; [discriminate|congruence|].
+  inversion H; subst; clear H. specialize (Hpost _ _ _ eq_refl). unfold cpost in Hpost.
+  split; simpl; intros x Hx.
+  - destruct cpu; [|discriminate]. inversion Hx; subst x. rewrite upd_eq. exact Hpost.
+  - destruct (Nat.eq_dec x a) as [->|Hne].
+    + rewrite upd_eq. destruct cpu; [congruence|exact Hpost].
+    + rewrite upd_neq by auto. apply H2. destruct Hcur as [E|E]; rewrite E; congruence.
+Qed.
+
+Lemma cpu_free_none s : cpu_free s = true -> cur s = None.
+Proof. unfold cpu_free. destruct (cur s); [discriminate|reflexivity]. Qed.
+Lemma on_cpu_some s a : on_cpu s a = true -> cur s = Some a.
+Proof. unfold on_cpu. destruct (cur s) as [b|]; [|discriminate]. intros H. apply Nat.eqb_eq in H. congruence. Qed.
+
+Lemma step_cpu s l s' o : Inv s -> cpu_inv s -> step s l = Some (s', o) -> cpu_inv s'.
+Proof.
+  intros HI HC H. pose proof HI as [He Hall]. pose proof HC as [C1 C2]. unfold step in H. rewrite He in H.
+  destruct l as [a d|susp|a|a|a|a|a t|a|a|a|a];
+    try (destruct (cpu_free s) eqn:Ef; [apply cpu_free_none in Ef|discriminate]);
+    try (destruct (on_cpu s a) eqn:Eo; [apply on_cpu_some in Eo|discriminate]).
+  - refine (commit_cpu s _ a _ _ s' o HC _ _ _ H); [auto|discriminate|].
+    intros c' o' cpu E. inversion E; subst. unfold cpost, gen_ctl. simpl. apply C2. congruence.
+  - destruct (spawned s) as [|[a d] sp] eqn:Esp; [discriminate|].
+    destruct (Hall a) as [Hc _]. destruct (l_hstart_ok a d susp _ Hc) as [Hnc _].
+    refine (commit_cpu s _ a _ _ s' o HC _ Hnc _ H); [auto|].
+    intros c' o' cpu E. eapply l_hstart_off; [exact Hc| |exact E]. apply C2. congruence.
+  - destruct (Hall a) as [Hc _]. destruct (l_hresume_ok a _ Hc) as [Hnc _].
+    refine (commit_cpu s _ a _ _ s' o HC _ Hnc _ H); [auto|].
+    intros c' o' cpu E. eapply l_hresume_off; [exact Hc| |exact E]. apply C2. congruence.
+  - destruct (Hall a) as [Hc _]. destruct (l_taskstart_ok a _ Hc) as [Hnc _].
+    refine (commit_cpu s _ a _ _ s' o HC _ Hnc _ H); [auto|].
+    intros c' o' cpu E. eapply l_taskstart_off; [exact Hc| |exact E]. apply C2. congruence.
+  - destruct (Hall a) as [Hc _]. destruct (l_gsuspend_ok _ Hc) as [Hnc _]. destruct (C1 _ Eo) as [G1 G2].
+    refine (commit_cpu s _ a _ _ s' o HC _ Hnc _ H); [auto|].
+    intros c' o' cpu E. eapply l_gsuspend_on; [exact Hc|exact G1|exact G2|exact E].
+  - destruct (Hall a) as [Hc _]. destruct (l_gresume_ok _ Hc) as [Hnc _].
+    refine (commit_cpu s _ a _ _ s' o HC _ Hnc _ H); [auto|].
+    intros c' o' cpu E. eapply l_gresume_off; [exact Hc| |exact E]. apply C2. congruence.
+  - destruct (Hall a) as [Hc _]. destruct (l_gyield_ok a t _ Hc) as [Hnc _]. destruct (C1 _ Eo) as [G1 G2].
+    refine (commit_cpu s _ a _ _ s' o HC _ Hnc _ H); [auto|].
+    intros c' o' cpu E. eapply l_gyield_on; [exact Hc|exact G1|exact G2|exact E].
+  - destruct (Hall a) as [Hc _]. destruct (l_gfinish_ok _ Hc) as [Hnc _]. destruct (C1 _ Eo) as [G1 G2].
+    refine (commit_cpu s _ a _ _ s' o HC _ Hnc _ H); [auto|].
+    intros c' o' cpu E. eapply l_gfinish_on; [exact Hc|exact G1|exact G2|exact E].
+  - destruct (Hall a) as [Hc _]. destruct (l_gfinish_ok _ Hc) as [Hnc _]. destruct (C1 _ Eo) as [G1 G2].
+    refine (commit_cpu s _ a _ _ s' o HC _ Hnc _ H); [auto|].
+    intros c' o' cpu E. eapply l_gfinish_on; [exact Hc|exact G1|exact G2|exact E].
+  - destruct (Hall a) as [Hc _]. destruct (l_popwake_ok a _ Hc) as [Hnc _].
+    refine (commit_cpu s _ a _ _ s' o HC _ Hnc _ H); [auto|].
+    intros c' o' cpu E. eapply l_popwake_off; [exact Hc| |exact E]. apply C2. congruence.
+  - destruct (Hall a) as [Hc _]. destruct (l_timeout_ok a _ Hc) as [Hnc _].
+    refine (commit_cpu s _ a _ _ s' o HC _ Hnc _ H); [auto|].
+    intros c' o' cpu E. eapply l_timeout_off; [exact Hc| |exact E]. apply C2. congruence.
+Qed.
+
+Definition Good (s : state) : Prop := Inv s /\ cpu_inv s.
+
+Lemma Good0 : Good state0.
+Proof. split; [exact Inv0|exact cpu_inv0]. Qed.
+
+Lemma step_good s l s' o : Good s -> step s l = Some (s', o) -> Good s'.
+Proof. intros [HI HC] H. split; [eapply step_inv; eauto|eapply step_cpu; eauto]. Qed.
+
+Lemma steps_good ls : forall s s', Good s -> steps s ls = Some s' -> Good s'.
+Proof.
+  induction ls as [|l ls IH]; intros s s' HG H; simpl in H.
+  - inversion H; subst; auto.
+  - destruct (step s l) as [[s1 o]|] eqn:E; [|discriminate]. eapply IH; [eapply step_good; [exact HG|exact E]|exact H].
+Qed.
